@@ -23,12 +23,12 @@ import pegref  # noqa: E402
 
 THEOREMS = ["JanetModel.Props.C12." + t for t in (
     "op_eq_den", "capLoad_restores", "opMatcher_eq_denMatcher", "entry_points_op_eq_den",
-    "never_reads_outside", "den_never_reads_outside", "match_attempt_never_reads_outside",
+    "never_reads_outside", "den_never_reads_outside", "match_attempt_never_reads_outside", "depth_balanced", "depth_exhaustion",
     "find_all_agrees_with_repeated_match", "find_agrees_with_repeated_match", "find_first_error",
     "lenprefix_leak_breaks_op_eq_den", "decode_sizes_agree")]
 # facts about the CURRENT peg.c (Gen/Peg.lean) that the model relies on; they fail to check on a tree with the defects
 TIE = ["JanetModel.Peg.Tie." + t for t in (
-    "lenprefix_mode_restored", "no_mode_leaks", "no_window_leaks", "number_capture_not_raw", "recursion_guard")]
+    "lenprefix_mode_restored", "no_mode_leaks", "no_window_leaks", "number_capture_not_raw", "recursion_guard", "depth_exits_balanced")]
 ENV = dict(os.environ, ASAN_OPTIONS="detect_leaks=0:abort_on_error=0", UBSAN_OPTIONS="print_stacktrace=1")
 HASHES = os.path.join(VERIF, "harness", "C12", "case_hashes.json")
 ENTRIES = ("match", "find", "findall", "replace", "replaceall")
@@ -48,6 +48,7 @@ class Case:
     def __init__(self, g, text, start, args, subst, origin="gen"):
         self.g, self.text, self.start, self.args, self.subst, self.origin = g, text, start, args, subst, origin
         self.gpos = ('seq', [g, ('position', 0)])
+        self.noscan = False  # long texts: peg/match only
         self.real = {}      # entry -> answer of the implementation
         self.scan = {}      # i -> answer of real peg/match of (* G ($)) at i
         self.dump = None
@@ -67,6 +68,8 @@ class Case:
         G, GP = src_hex(peggen.janet_source(self.g)), src_hex(peggen.janet_source(self.gpos))
         T, A, S = hx(self.text), src_hex(self.args_src()), src_hex(self.subst_src())
         L = [("dump", "dump %s - 0 - -" % G)]
+        if self.noscan:
+            return L + [("match", "match %s %s %d %s -" % (G, T, self.start, A))]
         for e in ENTRIES:
             L.append((e, "%s %s %s %d %s %s" % (e, G, T, self.start, A, S if e.startswith("replace") else "-")))
         for i in range(self.start, len(self.text) + 1):
@@ -80,10 +83,10 @@ class Case:
         if self.dump and self.dump.startswith("B "):
             _, hb, words, consts = self.dump.split(" ")
             for kind in ("op", "den"):
-                for e in (ENTRIES if kind == "op" else ("match",)):
+                for e in (ENTRIES if kind == "op" and not self.noscan else ("match",)):
                     L.append(((kind, e), "%s %s %s %d %s %s %s %d %s%s" % (kind, e, hb, leak, words, consts, T, self.start, A,
                                                                          (" " + S) if e.startswith("replace") else "")))
-        for e in ENTRIES:
+        for e in (("match",) if self.noscan else ENTRIES):
             L.append((("spec", e), "spec %s %s %s %d %s%s" % (e, spec, T, self.start, A, (" " + S) if e.startswith("replace") else "")))
         return L
 
@@ -366,10 +369,16 @@ def patt_from_json(j):
 
 def case_to_json(c):
     return {"grammar": patt_to_json(c.g), "source": peggen.janet_source(c.g), "text_hex": c.text.hex(), "start": c.start,
-            "args": [val_to_json(a) for a in c.args], "subst": val_to_json(c.subst)}
+            "args": [val_to_json(a) for a in c.args], "subst": val_to_json(c.subst), "noscan": c.noscan}
 
 
 def case_from_json(j, origin):
+    c = _case_from_json(j, origin)
+    c.noscan = bool(j.get("noscan"))
+    return c
+
+
+def _case_from_json(j, origin):
     return Case(patt_from_json(j["grammar"]), bytes.fromhex(j["text_hex"]), j.get("start", 0),
                 [val_from_json(a) for a in j.get("args", [])], val_from_json(j.get("subst", {"hex": "58"})), origin)
 
@@ -468,6 +477,9 @@ def run(ctx, only_cases=None):
             broken.append("tie: peg_rule case(s) %s differ from the source the Lean model (Peg/Op.lean) mirrors" % ",".join(changed))
         if x["num_raw"]:
             broken.append("translator: RULE_CAPTURE_NUM accumulates the matched text instead of the captured number when the grammar has no back-reference")
+        if x["depth_bad"]:
+            broken.append("translator: down1/up1 not balanced on some path of peg_rule case(s) %s (exit balances %s)" % (
+                ",".join(x["depth_bad"]), {k: x["depth_exits"][k] for k in x["depth_bad"]}))
         if x["mode_leaks"] or x["window_leaks"]:
             broken.append("translator: peg_rule can return with s->mode / s->text_end not restored in %s" % ",".join(x["mode_leaks"] + x["window_leaks"]))
     except ExtractError as e:
